@@ -594,7 +594,7 @@ def execute(run):
                 for _ in range(rng_scene.choice([1, 2, 2])):
                     sc = scenes.gen_scene(rng_scene, rng_scene.choice(
                         ['split', 'merge', 'demo-like', 'demo-like', 'asym-split', 'asym-split',
-                         'borderline', 'two-far', 'msa-crop', 'two-valued', 'high-close',
+                         'borderline', 'two-far', 'msa-crop', 'two-valued', 'high-close', 'multi-merge',
                          'multi-hit', 'rng-sensitive', 'no-hit', 'single-hit', 'vv', 'sparse']))
                     frames.append({'rows': sc['rows'], 'flavour': gen_flavour(rng_scene),
                                    'cls': sc['cls']})
